@@ -8,7 +8,7 @@ from lib.engine import R, V, enum_part, hyp_part
 ID = 'C12'
 RULE = ('every registered (model, culture) pair applied to: (1) every Python-supported Specs input of the culture (all models of the culture; 25% '
         'sample in the quick tier); (2) single generated expressions (families of C03-C10, C13, C20) alone and in carriers; (3) sentences of 2-4 '
-        'generated expressions of different families joined by punctuation-led filler separators; oracle: sort the entities of ONE parse call by '
+        'generated expressions of different families joined by punctuation-led filler separators; (4) deterministic chains of 2-3 amounts with the same unit separated by blanks only; oracle: sort the entities of ONE parse call by '
         'start, neighbours must satisfy next.start > previous.end; non-trivial = some model returned >= 2 entities for the query; '
         'distinct = (culture, query)')
 ASSUMPTIONS = ['separators are a static list without date, time, number or connector words']
@@ -78,7 +78,27 @@ def pred_en_range_fragment_shares_number(case, v):
     return bool(re.fullmatch(r'\d{1,2}(:\d\d)?\s?(am|pm)?', shared.strip().lower())) and (a[3].endswith('range') or b[3].endswith('range'))
 
 
-PREDICATES = {'c12_currency_shared_symbol': pred_currency_shared_symbol,
+def pred_zh_unit_nested(case, v):
+    """zh-cn unit models run a Chinese and an embedded English extractor/parser pair and keep both readings of a Latin-script
+    expression when one is nested in the other ('3.5 att' and '5 att'; 'n $ 5' and '$ 5')"""
+    d = _detail(v)
+    if d.get('culture') != 'zh-cn' or d.get('model') not in ('currency', 'dimension', 'temperature', 'age'):
+        return False
+    a, b = d['first'], d['second']
+    return a[0] <= b[0] and b[1] <= a[1]
+
+
+def pred_it_meno_fragment(case, v):
+    """it-it number model: the negative word 'meno' found INSIDE another word ('armeno', 'rumeno') yields number entities made of
+    'meno' and the following punctuation, reported twice or nested"""
+    d = _detail(v)
+    if d.get('culture') != 'it-it' or d.get('model') != 'number':
+        return False
+    return all(str(x[2]).startswith('meno') for x in (d['first'], d['second']))
+
+
+PREDICATES = {'c12_zh_unit_nested': pred_zh_unit_nested, 'c12_it_meno_fragment': pred_it_meno_fragment,
+              'c12_currency_shared_symbol': pred_currency_shared_symbol,
               'c12_pt_numeric_date_inside_datetimerange': pred_pt_numeric_date_inside_datetimerange,
               'c12_en_range_fragment_shares_number': pred_en_range_fragment_shares_number}
 
@@ -95,13 +115,50 @@ def sentence_cases(culture):
                      st.sampled_from(['', '', 'note : ']))
 
 
+def unit_chains(per_type):
+    """Deterministic part: chains of two and three amounts with the same unit separated only by blanks ('5 usd 15 usd 50 usd'),
+    for the first `per_type` table spellings of every (culture, unit type, prefix|suffix) and a list of common units."""
+    from checks import c05
+
+    def gen():
+        seen = {}
+        for c, t, kind, f, unit, epi in c05.table_entries():
+            k = (c, t, kind)
+            common = f.lower() in ('usd', 'us$', '$', 'dollars', 'dollar', 'euros', 'eur', '€', 'kg', 'km', 'm', 'years old', 'degrees', '元', '美元', 'cent',
+                                   'cents', '£', 'yen', 'lb', 'mph', 'c', 'f')
+            seen[k] = seen.get(k, 0) + 1
+            if seen[k] > per_type and not common:
+                continue
+            cjk = c in ('zh-cn', 'ja-jp') and not f.isascii()
+            sp = '' if cjk else ' '
+            nums = ['5', '15', '50']
+            if kind == 'suffix':
+                items = [n + sp + f for n in nums]
+            else:
+                items = [f + sp + n for n in nums]
+            for n in (2, 3):
+                yield {'culture': c, 'q': ' '.join(items[:n]), 'src': 'unit-chain', 'only': [t]}
+    return gen
+
+
+def run_chain(case):
+    culture, q = case['culture'], case['q']
+    results = allmodels.run_all(culture, q, only=case['only'])
+    vs, multi = overlap_violations(culture, q, results)
+    return R(vs, nontrivial=multi, labels=['src:unit-chain', 'culture:' + culture, 'type:' + case['only'][0]] + (['multi-entity'] if multi else []),
+             obs={'query': q, 'entities': {k: v for k, v in results.items() if v}}, key=[culture, q], evals=len(results))
+
+
 def warm(tier):
     c01.warm(tier)
+    from checks import c05
+    c05.table_entries()
 
 
 def parts(tier, seed):
     q = tier == 'quick'
     ps = [enum_part('corpus-all-models', c01.corpus_cases(0.25 if q else 1, seed, salt=13), run_query, exhaustive=not q, weight=3)]
+    ps.append(enum_part('unit-chains', unit_chains(12 if q else 60), run_chain, exhaustive=True))
     for c in allmodels.CULTURES:
         n1 = (800 if c == 'en-us' else 200) if q else (10000 if c == 'en-us' else 2500)
         n2 = (1200 if c == 'en-us' else 300) if q else (30000 if c == 'en-us' else 5500)
